@@ -58,6 +58,7 @@ type tr struct {
 	funcs   map[string]*ast.FuncDecl
 	locals  map[string]string // name -> "int" | "closure"
 	subst   map[string]string // printed Go expression -> Lean expression (loop element, if-init variable)
+	depth   int               // inlining depth of helper predicates
 }
 
 func lowerFirst(s string) string {
@@ -307,6 +308,25 @@ func (t *tr) cond(e ast.Expr) string {
 			if p, ok := t.path(recv); ok {
 				if v, ok := constVal(x.Args[0]); ok {
 					return fmt.Sprintf("has %s %d", p, v)
+				}
+			}
+		}
+	}
+	// p.helper(): a niladic method of the receiver's type whose body is `return <cond>` is inlined
+	if x, ok := e.(*ast.CallExpr); ok && len(x.Args) == 0 {
+		if se, ok := x.Fun.(*ast.SelectorExpr); ok {
+			if p, ok := t.path(se.X); ok && p == "p" {
+				if fd := t.funcs[t.fn.recv+"."+se.Sel.Name]; fd != nil && fd.Body != nil && len(fd.Body.List) == 1 && t.depth < 3 {
+					if rs, ok := fd.Body.List[0].(*ast.ReturnStmt); ok && len(rs.Results) == 1 {
+						if bt, ok := pkg.TypesInfo.TypeOf(rs.Results[0]).Underlying().(*types.Basic); ok && bt.Kind() == types.Bool {
+							rv := "p"
+							if len(fd.Recv.List[0].Names) == 1 {
+								rv = fd.Recv.List[0].Names[0].Name
+							}
+							sub := &tr{fn: t.fn, recvVar: rv, funcs: t.funcs, locals: map[string]string{}, subst: map[string]string{}, depth: t.depth + 1}
+							return "(" + sub.cond(rs.Results[0]) + ")"
+						}
+					}
 				}
 			}
 		}
